@@ -41,6 +41,8 @@ func main() {
 		c26IndexWorker()
 	case "worker-c26db":
 		c26DBWorker()
+	case "worker-c26bs":
+		c26BlockStoreWorker()
 	case "worker-c25":
 		c25Worker()
 	default:
